@@ -90,6 +90,14 @@ theorem Chain.last_zero {U : Nat → Blk} {l : List Nat} (h : Chain U l) : l.get
 
 /-! ### the store invariant (no pruning): what `AddBlocks` maintains about records and states -/
 
+/-- the part of the store invariant that pruning does not touch: states are closed under parents
+with consecutive heights, and a state implies a stored header -/
+structure Core (U : Nat → Blk) (m : Mgr) : Prop where
+  h0 : (U 0).height = 0
+  closed : ∀ i, m.states i = true → i ≠ 0 →
+    m.states (par U i) = true ∧ (U i).height = (U (par U i)).height + 1
+  staterec : ∀ i, m.states i = true → (m.recs i).isSome = true
+
 structure SInv (U : Nat → Blk) (m : Mgr) : Prop where
   h0 : (U 0).height = 0
   gen : m.recs 0 = some ⟨true, true⟩ ∧ m.states 0 = true
@@ -106,11 +114,13 @@ structure SInv (U : Nat → Blk) (m : Mgr) : Prop where
   /-- a block is applied (gets its supplement) only on top of an applied parent -/
   suppclosed : ∀ i, i ≠ 0 → m.recs i = some ⟨true, true⟩ → m.recs (par U i) = some ⟨true, true⟩
 
-theorem SInv.ne_zero_of_height {U m} (h : SInv U m) {i : Nat} (hh : 0 < (U i).height) : i ≠ 0 := by
+theorem SInv.core {U m} (h : SInv U m) : Core U m := ⟨h.h0, h.closed, h.staterec⟩
+
+theorem Core.ne_zero_of_height {U m} (h : Core U m) {i : Nat} (hh : 0 < (U i).height) : i ≠ 0 := by
   intro h0; subst h0; have := h.h0; omega
 
 /-- within its height, the ancestry of a block with a state is stored with consecutive heights -/
-theorem SInv.anc_state {U m} (h : SInv U m) {i : Nat} (hi : m.states i = true) :
+theorem Core.anc_state {U m} (h : Core U m) {i : Nat} (hi : m.states i = true) :
     ∀ k, k ≤ (U i).height → m.states (anc U k i) = true ∧ (U (anc U k i)).height = (U i).height - k := by
   intro k
   induction k with
@@ -123,12 +133,30 @@ theorem SInv.anc_state {U m} (h : SInv U m) {i : Nat} (hi : m.states i = true) :
     rw [anc_succ']
     exact ⟨hps, by omega⟩
 
-theorem SInv.header {U m} (h : SInv U m) {i : Nat} (hi : m.states i = true) : m.header i = true := by
+theorem Core.header {U m} (h : Core U m) {i : Nat} (hi : m.states i = true) : m.header i = true := by
   simpa [Mgr.header] using h.staterec i hi
 
-theorem SInv.height_pos {U m} (h : SInv U m) {i : Nat} (hi : m.states i = true) (hne : i ≠ 0) :
+theorem Core.height_pos {U m} (h : Core U m) {i : Nat} (hi : m.states i = true) (hne : i ≠ 0) :
     0 < (U i).height := by
   have := (h.closed i hi hne).2; omega
+
+theorem Core.eq_zero_of_height {U m} (h : Core U m) {i : Nat} (hi : m.states i = true)
+    (hh : (U i).height = 0) : i = 0 := by
+  by_cases h0 : i = 0
+  · exact h0
+  · have := h.height_pos hi h0; omega
+
+theorem SInv.ne_zero_of_height {U m} (h : SInv U m) {i : Nat} (hh : 0 < (U i).height) : i ≠ 0 :=
+  h.core.ne_zero_of_height hh
+theorem SInv.anc_state {U m} (h : SInv U m) {i : Nat} (hi : m.states i = true) :
+    ∀ k, k ≤ (U i).height → m.states (anc U k i) = true ∧ (U (anc U k i)).height = (U i).height - k :=
+  h.core.anc_state hi
+theorem SInv.header {U m} (h : SInv U m) {i : Nat} (hi : m.states i = true) : m.header i = true :=
+  h.core.header hi
+theorem SInv.height_pos {U m} (h : SInv U m) {i : Nat} (hi : m.states i = true) (hne : i ≠ 0) :
+    0 < (U i).height := h.core.height_pos hi hne
+theorem SInv.eq_zero_of_height {U m} (h : SInv U m) {i : Nat} (hi : m.states i = true)
+    (hh : (U i).height = 0) : i = 0 := h.core.eq_zero_of_height hi hh
 
 /-! ### `reorgPath` -/
 
@@ -138,7 +166,7 @@ theorem rewind_ok {U : Nat → Blk} {m : Mgr} {i r a : Nat} (hh : m.header i = t
 
 /-- phase 1/2 of `reorgPath`: rewinding a stored block down to height `h` visits exactly its
 first `height - h` ancestors -/
-theorem rewindAbove_spec {U : Nat → Blk} {m : Mgr} (hI : SInv U m) (h other : Nat) :
+theorem rewindAbove_spec {U : Nat → Blk} {m : Mgr} (hI : Core U m) (h other : Nat) :
     ∀ (fuel a : Nat) (acc : List Nat), m.states a = true → (U a).height ≤ fuel →
       rewindAbove U m none h other fuel a acc =
         .ok (anc U ((U a).height - h) a, acc ++ (List.range ((U a).height - h)).map (fun k => anc U k a)) := by
@@ -162,15 +190,9 @@ theorem rewindAbove_spec {U : Nat → Blk} {m : Mgr} (hI : SInv U m) (h other : 
     · have : (U a).height - h = 0 := by omega
       simp [hgt, this]
 
-theorem SInv.eq_zero_of_height {U m} (h : SInv U m) {i : Nat} (hi : m.states i = true)
-    (hh : (U i).height = 0) : i = 0 := by
-  by_cases h0 : i = 0
-  · exact h0
-  · have := h.height_pos hi h0; omega
-
 /-- phase 3 of `reorgPath`: two stored blocks at the same height are rewound in lockstep to
 their first common ancestor -/
-theorem rewindBoth_spec {U : Nat → Blk} {m : Mgr} (hI : SInv U m) :
+theorem rewindBoth_spec {U : Nat → Blk} {m : Mgr} (hI : Core U m) :
     ∀ (fuel a b : Nat) (rev app : List Nat), m.states a = true → m.states b = true →
       (U a).height = (U b).height → (U a).height ≤ fuel →
       ∃ n, n ≤ (U a).height ∧
@@ -216,7 +238,7 @@ theorem map_anc_range_add (U : Nat → Blk) (d n a : Nat) :
 /-- **`reorgPath` is correct**: for two stored blocks it returns the first `na` ancestors of `a`
 (to revert, in order) and the first `nb` ancestors of `b` reversed (to apply, in order), which
 meet in a common ancestor; it never fails. -/
-theorem reorgPath_spec {U : Nat → Blk} {m : Mgr} (hI : SInv U m) {a b : Nat}
+theorem reorgPath_spec {U : Nat → Blk} {m : Mgr} (hI : Core U m) {a b : Nat}
     (ha : m.states a = true) (hb : m.states b = true) :
     ∃ na nb, na ≤ (U a).height ∧ nb ≤ (U b).height ∧
       reorgPath U m a b none =
@@ -445,7 +467,7 @@ theorem applyAll_spec {U} : ∀ (l : List Nat) (m : Mgr), Inv U m → Attach U m
       exact absurd (hall x (by simp)) hnot
 
 /-- the apply list `reorgPath` returns attaches to the meeting point -/
-theorem attach_anc {U m} (hI : SInv U m) {b : Nat} (hb : m.states b = true) :
+theorem attach_anc {U m} (hI : Core U m) {b : Nat} (hb : m.states b = true) :
     ∀ nb, nb ≤ (U b).height →
       Attach U m (anc U nb b) ((List.range nb).map (fun k => anc U k b)).reverse := by
   intro nb
@@ -475,7 +497,7 @@ theorem reorgTo_spec {U m} (h : Inv U m) {t : Nat} (ht : m.states t = true) :
     ((reorgTo U m t).2 = none → (reorgTo U m t).1.tip = t) ∧
     ((reorgTo U m t).2 ≠ none → (reorgTo U m t).2 = some .invalidBlock) ∧
     ((∀ k, k ≤ (U t).height → m.recs (anc U k t) = some ⟨true, true⟩) → (reorgTo U m t).2 = none) := by
-  obtain ⟨na, nb, hna, hnb, hpath, hmeet⟩ := reorgPath_spec h.s h.tip_state ht
+  obtain ⟨na, nb, hna, hnb, hpath, hmeet⟩ := reorgPath_spec h.s.core h.tip_state ht
   have hlen := h.length
   obtain ⟨hrev, hinv1⟩ := revertN_spec (U := U) na m h (by omega)
   -- the tip after the reverts is the meeting point
@@ -487,7 +509,7 @@ theorem reorgTo_spec {U m} (h : Inv U m) {t : Nat} (ht : m.states t = true) :
     rfl
   have hatt : Attach U ({ m with best := m.best.drop na } : Mgr)
       ({ m with best := m.best.drop na } : Mgr).tip ((List.range nb).map (fun k => anc U k t)).reverse := by
-    rw [htip1]; exact attach_anc hinv1.s ht nb hnb
+    rw [htip1]; exact attach_anc hinv1.s.core ht nb hnb
   obtain ⟨a1, a2, a3, a4, a5⟩ := applyAll_spec _ _ hinv1 hatt
   have hmono0 : Mono m ({ m with best := m.best.drop na } : Mgr) := ⟨fun _ x => x, fun _ x => x, rfl⟩
   have hred : reorgTo U m t = applyAll U ((List.range nb).map (fun k => anc U k t)).reverse { m with best := m.best.drop na } := by
